@@ -32,6 +32,16 @@ theorem asmSum_bounded (w : Ex) (lo hi : Rat) (hv : (Ex.bounded w lo hi).valid =
     simp only [Ex.assemble, hm]
     exact ih d hd
 
+theorem asmSum_unary (u : Nat) (w : Ex) (hv : (Ex.unary u w).valid = true)
+    (hp : (Ex.unary u w).noPtile = true) (ih : AsmSum subs p st w) :
+    AsmSum subs p st (.unary u w) := by
+  cases hm : (Ex.unary u w).matchIdx subs with
+  | some i => exact asmSum_some subs p st hst hv hp hm (fun st' => by simp only [Ex.assemble, hm])
+  | none =>
+    intro d hd
+    simp only [Ex.assemble, hm]
+    exact ih d hd
+
 theorem asmSum_leaf (n : Ex) (hv : n.valid = true) (hp : n.noPtile = true)
     (h : ∀ st', n.assemble subs p st' = match n.matchIdx subs with | some i => st' i | none => n.empty) :
     AsmSum subs p st n := by
@@ -62,8 +72,9 @@ theorem asmSum_all : ∀ (e : Ex), e.valid = true → e.noPtile = true → AsmSu
     exact asmSum_bounded subs p st hst w lo hi hv hp
       (ih (by simpa [Ex.valid] using hv) (by simpa [Ex.noPtile] using hp))
   | unary f w ih =>
-    intro hv hp d hd
-    exact ih (by simpa [Ex.valid] using hv) (by simpa [Ex.noPtile] using hp) d hd
+    intro hv hp
+    exact asmSum_unary subs p st hst f w hv hp
+      (ih (by simpa [Ex.valid] using hv) (by simpa [Ex.noPtile] using hp))
   | shift w off _ => intro hv hp; exact asmSum_none subs p st hv hp (fun _ => rfl)
   | ptile id v pe n _ _ => intro _ hp; simp [Ex.noPtile] at hp
 
